@@ -12,7 +12,9 @@ REQUIRED = ['clip1_spec', 'clip_spec', 'clip_mem', 'clip_id_of_mem', 'clip_eq_se
             'truncCount_eq_zero_iff', 'reject_iff', 'accept_float', 'accept_pair', 'parse_interval',
             'bound_unreached_noop', 'use_sites_unreached', 'estimatorBound_spec', 'weight_le', 'iptw_weight_le',
             'iptw_weight_le_sym', 'gpair_le', 'stoch_cf_le', 'ipmw_ipsw_le', 'probability_bounds_float_generated',
-            'probability_bounds_pair_generated', 'probability_bounds_vector_generated']
+            'probability_bounds_pair_generated', 'probability_bounds_vector_generated',
+            # Props/C17_Sites.lean: the regenerated call sites are the use-site models
+            'ipsw_sampling_generated', 'snm_missing_generated', 'sites_unreached_generated']
 RULE = ('helper: every container type (list, tuple, ndarray float64/float32/int, Series with default and shuffled index, '
         'read-only ndarray, read-only view of a Series, strided view, frombuffer array) x every bound form (valid floats, '
         'valid pairs as list/tuple/ndarray/Series incl. lo=hi, ints in a pair, >2 entries; invalid: float <0 or >1, '
@@ -712,6 +714,13 @@ def model_expect(drv, site, cfg, U, bound):
     elif site in ('IPTW.missing_model', 'GEstimationSNM.missing_model'):
         obs = U['aux']['obs']
         rep, _ = drv.ask('bw', kind='ipmw', n=fl(U['aux']['n_ref'][obs]), d=fl(U['aux']['d_ref'][obs]), **base)
+        if rep['status'] == 'ok' and site == 'GEstimationSNM.missing_model':
+            # the per-row lines regenerated from GEstimationSNM.missing_model (Gen/Sites.lean) on the same raw
+            # probabilities: identical to the hand-written use-site model (Props/C17_Sites.snm_missing_generated)
+            g, _ = drv.ask('site', kind='snmmiss', stab=int(cfg['stab']), obs=bl(np.ones(int(obs.sum()))),
+                           n=fl(U['aux']['n_ref'][obs]), d=fl(U['aux']['d_ref'][obs]), **base)
+            if g.get('w') != rep['w']:
+                return dict(g, status='err generated call site differs from the use-site model'), {}
         if rep['status'] == 'ok':
             w = np.full(len(obs), np.nan)
             w[obs] = dec_list(rep['w'], unfx)
@@ -737,6 +746,13 @@ def model_expect(drv, site, cfg, U, bound):
         n = U['p']['numer'] if cfg['stab'] else np.ones(len(U['p']['denom']))
         rep, _ = drv.ask('bw', kind='ipsw', gen=int(cfg['gen']), stab=int(cfg['stab']), n=fl(n), d=fl(U['p']['denom']),
                          **base)
+        if rep['status'] == 'ok':
+            # the per-row lines regenerated from IPSW.sampling_model (Gen/Sites.lean) on the same raw probabilities:
+            # identical to the hand-written use-site model (Props/C17_Sites.ipsw_sampling_generated)
+            g, _ = drv.ask('site', kind='ipsw', gen=int(cfg['gen']), stab=int(cfg['stab']), n=fl(n),
+                           d=fl(U['p']['denom']), **base)
+            if (g.get('d'), g.get('n'), g.get('w')) != (rep['d'], rep['n'], rep['w']):
+                return dict(g, status='err generated call site differs from the use-site model'), {}
         if rep['status'] == 'ok':
             exp = {'p.denom': dec_list(rep['d'], unfx), 'w.ipsw': dec_list(rep['w'], unfx),
                    'aux.numer_col': dec_list(rep['n'], unfx)}
